@@ -8,7 +8,6 @@ import (
 
 	"github.com/corestario/kyber/share"
 
-	"github.com/lidofinance/dc4bc/client/api/dto"
 	"github.com/lidofinance/dc4bc/client/types"
 	fsmtypes "github.com/lidofinance/dc4bc/fsm/types"
 	"github.com/lidofinance/dc4bc/pkg/utils"
@@ -23,7 +22,7 @@ type BatchSpec struct {
 	Proposer int
 	Signers  []int // who answers promptly; the others answer late (after completion)
 	Data     map[string][]byte
-	Range    *dto.Range
+	Range    *world.Range
 	Hand     *storage.Message // hand-built proposal instead of the API path
 	NoLate   bool             // the slow participants never answer
 }
